@@ -308,7 +308,11 @@ def generate(rng, ncells=None, features=None):
         extra.append(["phys:n", [rng.choice(["j", "2j"]), "20", "j"]])
     return {
         "message": ["message: outp=o.out", "  runtpe=r.run"] if "message" in F and rng.random() < 0.2 else None,
-        "title": rng.choice(["Generated problem", "test case 42 (verif)", "pin cell - variant", "a title with $ and & and c"]),
+        # (the first line after the message block is the title whatever it looks like: also a line that would be a C
+        # comment, a read card or a message start anywhere else — seeded change C01d)
+        "title": rng.choice(["Generated problem", "test case 42 (verif)", "pin cell - variant", "a title with $ and & and c",
+                             "c  bare sphere -- benchmark, rev. 3", "C TITLE THAT LOOKS LIKE A COMMENT", "  c indented comment-like title",
+                             "c", "1 0 -1 imp:n=1 $ a title that looks like a cell"]),
         "mode": mode, "cells": cells, "surfaces": surfaces, "materials": materials, "transforms": transforms,
         "placement": placement, "extra_data": extra, "progressions": "progressions" in F, "shared_numbers": SH,
     }
